@@ -19,7 +19,7 @@ def de_casteljau(P:list, t:float):
     """
     if not 0 <= t <= 1:
         raise InvalidRangeArgumentError("t", t, "in [0,1]")
-    coeffs = [x for x in P]
+    coeffs = [np.array(x, subok=True) for x in P] # copies: the result must never be one of the control points themselves
     order = len(P)-1
     for j in range(order):
         for i in range(order - j):
